@@ -581,6 +581,63 @@ def bvval_wire(val):
 NENV = 3
 
 
+class patched_get_env(object):
+    """`pysmt.shortcuts` works on the environment on top of the global stack; here it is made
+    to see `env` without pushing it (pushing would also redirect the type checker's
+    `BVType()/ArrayType()` factories and register types in `env`'s TypeManager)."""
+    def __init__(self, env):
+        self.env = env
+
+    def __enter__(self):
+        import pysmt.shortcuts as sc
+        self.sc, self.old = sc, sc.get_env
+        sc.get_env = lambda: self.env
+
+    def __exit__(self, *a):
+        self.sc.get_env = self.old
+
+
+class ViaShortcuts(object):
+    """manager look-alike whose constructors are the functions of pysmt.shortcuts"""
+    def __init__(self, mgr, env):
+        self._mgr, self._env = mgr, env
+
+    def __getattr__(self, name):
+        import pysmt.shortcuts as sc
+        f = getattr(sc, name, None)
+        if f is None or name in ("normalize", "BVType", "Type"):
+            return getattr(self._mgr, name)
+
+        def call(*a, **k):
+            with patched_get_env(self._env):
+                return f(*a, **k)
+        return call
+
+
+class Recorder(object):
+    """stands in for env.factory: records what the shortcuts hand to the solver layer"""
+    def __init__(self):
+        self.got = None
+
+    def _one(self, formula, **kw):
+        self.got = [formula]
+        return None
+
+    is_sat = is_valid = is_unsat = get_model = get_implicant = qelim = _one
+
+    def get_unsat_core(self, clauses, **kw):
+        self.got = list(clauses)
+
+    def binary_interpolant(self, a, b, **kw):
+        self.got = [a, b]
+
+    def sequence_interpolant(self, formulas, **kw):
+        self.got = list(formulas)
+
+
+ROUTES1 = ["is_sat", "is_valid", "is_unsat", "get_model", "get_implicant", "qelim"]
+
+
 class Res(object):
     __slots__ = ("env", "obj", "out", "kid", "exp", "recipe", "name", "special")
 
@@ -688,6 +745,8 @@ class History(object):
 
     def emit(self, e, name, wire, pyc, bluec, recipe=None):
         mgr = self.mgr[e]
+        if self.rng.random() < 0.08:
+            mgr = ViaShortcuts(mgr, self.envs[e])       # the same call through pysmt.shortcuts
         try:
             obj = pyc(mgr)
             out = None
@@ -701,8 +760,12 @@ class History(object):
             kid = None
             exp = x.cls
         idx = len(self.res)
-        self.res.append(Res(e, obj, out, kid, exp, recipe, name))
-        self.ops.append("%d %s" % (e, " ".join([name] + wire)))
+        self.res.append(Res(e, obj, out, kid, exp, recipe, name or ("ill:" + wire[1])))
+        if name is None:        # the wire tokens are complete (flag + name + arguments)
+            name = "ill:" + wire[1]
+            self.ops.append("%d %s" % (e, " ".join(wire)))
+        else:
+            self.ops.append("%d %s" % (e, " ".join([name] + wire)))
         self.counts[name] = self.counts.get(name, 0) + 1
         if obj is not None and kid is not None:
             self.pool[e].setdefault(self.B.ty[kid], []).append(idx)
@@ -763,12 +826,9 @@ class History(object):
         objs = [self.o(i) for i in idx]
         if style == 0:
             py = lambda m: getattr(m, pyname)(*objs)
-        elif style == 1:
-            py = lambda m: getattr(m, pyname)(objs)
-        elif style == 2:
-            py = lambda m: getattr(m, pyname)(tuple(objs))
         else:
-            py = lambda m: getattr(m, pyname)(iter(objs))
+            arg = self.spell(objs)      # list / tuple / lazy iterable, also of nothing
+            py = lambda m: getattr(m, pyname)(arg)
         ks = tuple(self.k(i) for i in idx)
         return [self._lst(idx)], py, (lambda B: bluef(B, ks))
 
@@ -893,11 +953,36 @@ class History(object):
     def c_Exists(self, e, vs, b):
         return self._quant(e, "Exists", "EXISTS", vs, b)
 
+    def spell(self, objs):
+        """one of the ways to hand a sequence of nodes to a constructor that takes an iterable:
+        list, tuple, and the LAZY ones (always truthy, no len(), consumed once)"""
+        k = self.rng.randrange(9)
+        objs = list(objs)
+        if k == 0:
+            return objs
+        if k == 1:
+            return tuple(objs)
+        if k == 2:
+            return iter(objs)
+        if k == 3:
+            return (o for o in objs)
+        if k == 4:
+            return filter(lambda o: True, objs)
+        if k == 5:
+            return map(lambda o: o, objs)
+        if k == 6:
+            return dict(enumerate(objs)).values()
+        if k == 7:
+            import collections
+            return collections.deque(objs)
+        import itertools
+        return itertools.chain(objs[:1], objs[1:])
+
     def _quant(self, e, pyname, nt, vs, b):
-        vo = [self.o(i) for i in vs]
         vk = [self.k(i) for i in vs]
         bo, bk = self.o(b), self.k(b)
-        return [self._lst(vs), self.r(b)], (lambda m: getattr(m, pyname)(vo, bo)), (lambda B: B.Quant(nt, vk, bk))
+        arg = self.spell([self.o(i) for i in vs])
+        return [self._lst(vs), self.r(b)], (lambda m: getattr(m, pyname)(arg, bo)), (lambda B: B.Quant(nt, vk, bk))
 
     def c_Function(self, e, f, ps):
         fo, fk = self.o(f), self.k(f)
@@ -1029,10 +1114,19 @@ class History(object):
         kassign = {self.k(a): self.k(b) for a, b in kvs}
         order = [self.k(a) for a, _ in sorted(kvs, key=lambda ab: id(self.o(ab[0])))]
         wire = [ty_str(it), self.r(d), "[" + ",".join("%s:%s" % (self.r(a), self.r(b)) for a, b in kvs) + "]"]
-        if not kvs and self.rng.random() < 0.5:
+        r = self.rng.random()
+        if not kvs and r < 0.5:
             py = lambda m: m.Array(ty, do)
-        else:
+        elif r < 0.8:
             py = lambda m: m.Array(ty, do, assign)
+        elif r < 0.9:
+            import collections
+            od = collections.OrderedDict(reversed(list(assign.items())))
+            py = lambda m: m.Array(ty, do, od)
+        else:
+            import types
+            mp = types.MappingProxyType(assign)
+            py = lambda m: m.Array(ty, do, mp)
         return wire, py, (lambda B: B.Array(it, dk, kassign, order))
 
     def c_Algebraic(self, e, tag):
@@ -1093,10 +1187,105 @@ class History(object):
             self._resync_types(e)
         return idx
 
+    def do_route(self, e, route, idxs):
+        """a pysmt.shortcuts function that contextualises foreign formulas (is_sat, get_model,
+        get_unsat_core, binary_interpolant, ...) called in environment e, whose factory is a
+        recorder: what reaches the solver layer must be what normalize gives.  For the model
+        this is the sequence of normalize calls the shortcut documents."""
+        import pysmt.shortcuts as sc
+        env, mgr = self.envs[e], self.mgr[e]
+        objs = [self.o(i) for i in idxs]
+        foreign = [self.res[i].env != e for i in idxs]
+        if route == "get_unsat_core":
+            normed = [any(foreign)] * len(idxs)      # all clauses are re-created if one is foreign
+        else:
+            normed = foreign
+        # blueprint: which call fails first (symbol / sort clash in the target)
+        symnow = self.symty(e)
+        decl = dict((n, d.arity) for n, d in env.type_manager._custom_types_decl.items())
+        exps = []
+        for i, nrm in zip(idxs, normed):
+            bad = set()
+            if nrm:
+                syms, sorts = self._dag_symbols(self.k(i))
+                for name, t in syms:
+                    if symnow.get(name, t) != t:
+                        bad.add("E:type")
+                for name, ar in sorts:
+                    if decl.get(name, ar) != ar:
+                        bad.add("E:value")
+                if not bad:
+                    for name, t in syms:
+                        symnow[name] = t
+                    for name, ar in sorts:
+                        decl[name] = ar
+            exps.append("|".join(sorted(bad)) if bad else None)
+            if bad:
+                break
+        rec = Recorder()
+        old_factory = env._factory
+        env._factory = rec
+        try:
+            with patched_get_env(env):
+                if route in ROUTES1:
+                    getattr(sc, route)(objs[0])
+                elif route == "binary_interpolant":
+                    sc.binary_interpolant(objs[0], objs[1])
+                else:
+                    getattr(sc, route)(self.spell(objs) if route == "get_unsat_core" else list(objs))
+            out = None
+        except Exception as ex:
+            out = classify(ex)
+        finally:
+            env._factory = old_factory
+        handed = rec.got if rec.got is not None else []
+        self.counts["route:" + route] = self.counts.get("route:" + route, 0) + 1
+        memo = getattr(getattr(mgr, "_normalizer", None), "memoization", {}) or {}
+        last = None
+        for pos, (i, nrm) in enumerate(zip(idxs, normed)):
+            exp = exps[pos] if pos < len(exps) else None
+            if out is None:
+                got = handed[pos] if pos < len(handed) else None
+            else:
+                # the call raised: the formulas before the failing one were re-created (their
+                # copies are in the normalizer's memo), nothing reached the factory
+                got = memo.get(self.o(i)) if (nrm and exp is None) else None
+            if not nrm:
+                if out is None and got is not self.o(i):
+                    self.viol.append(({"oracle": "route", "route": route, "shape": "own-formula-replaced"},
+                                      "%s handed %s to the factory for the environment's own %s" % (route, got, self.o(i))))
+                continue
+            syms, _ = self._dag_symbols(self.k(i))
+            x = Res(e, got, None if got is not None else (out or "E:other:nothing-handed"), None, exp, None,
+                    "normalize", special=("norm", i))
+            idx = len(self.res)
+            self.res.append(x)
+            self.ops.append("%d normalize %s" % (e, self.r(i)))
+            self.counts["normalize"] = self.counts.get("normalize", 0) + 1
+            last = idx
+            if x.obj is not None:
+                for _, t in syms:
+                    for st in subtypes(t):
+                        self._adopt_type(e, st)
+                if x.obj in mgr:
+                    x.kid = self.actual_kid(x.obj, {})
+                    self.pool[e].setdefault(self.B.ty[x.kid], []).append(idx)
+            else:
+                self.pytypes[e] = {}
+                self._resync_types(e)
+                break
+        return last
+
     def _adopt_type(self, e, t):
         if t not in self.pytypes[e]:
             tm = self.envs[e].type_manager
-            self._mk_type(tm, self.pytypes[e], t)
+            try:
+                self._mk_type(tm, self.pytypes[e], t)
+            except Exception:
+                # bookkeeping of the generator only: the target does not hold the type the
+                # copy should have brought (S reports the copy itself)
+                self.pytypes[e] = {}
+                self._resync_types(e)
 
     def _resync_types(self, e):
         """after a failed normalize: the generator's type cache only keeps what the target's
@@ -1697,6 +1886,9 @@ class History(object):
     def redo(self, e, name, args):
         if name == "P":
             return self.emitP(e, *args)
+        if name == "ILL":
+            wire, pyc, bluec = self.c_ILL(e, *args)
+            return self.emit(e, None, wire, pyc, bluec, recipe=("ILL", args))
         return self.build(e, name, *args)
 
     def replay(self, e):
@@ -1836,6 +2028,47 @@ class History(object):
         if comp:
             self.rebuild_from(e, rng.choice(comp))
 
+    ILL = [   # (python name, wire name, list style, argument sorts): ONE create_node, rejected by the type checker
+        ("And", "And", True, [("I",), ("B",)]), ("Or", "Or", True, [("B",), ("R",)]),
+        ("Implies", "Implies", False, [("I",), ("B",)]), ("Iff", "Iff", False, [("I",), ("I",)]),
+        ("Plus", "Plus", True, [("B",), ("B",)]), ("Times", "Times", True, [("I",), ("R",)]),
+        ("Minus", "Minus", False, [("I",), ("R",)]), ("LE", "LE", False, [("B",), ("B",)]),
+        ("LT", "LT", False, [("I",), ("R",)]), ("GE", "GE", False, [("S",), ("S",)]),
+        ("Equals", "Equals", False, [("B",), ("B",)]), ("Equals", "Equals", False, [("I",), ("R",)]),
+        ("Not", "Not", False, [("I",)]), ("Ite", "Ite", False, [("I",), ("B",), ("B",)]),
+        ("Ite", "Ite", False, [("B",), ("I",), ("R",)]), ("BVXor", "BVXor", False, [("V", 4), ("V", 8)]),
+        ("BVULT", "BVULT", False, [("V", 4), ("V", 2)]), ("BVAdd", "BVAdd", True, [("V", 4), ("V", 8)]),
+        ("StrLength", "StrLength", False, [("I",)]), ("StrConcat", "StrConcat", True, [("S",), ("I",)]),
+        ("Select", "Select", False, [("A", ("I",), ("I",)), ("B",)]),
+        ("Store", "Store", False, [("A", ("I",), ("I",)), ("I",), ("B",)]),
+        ("BVToNatural", "BVToNatural", False, [("I",)]), ("BVComp", "BVComp", False, [("V", 4), ("V", 8)]),
+    ]
+
+    def c_ILL(self, e, k, idx):
+        pyname, wname, lst, _ = self.ILL[k]
+        objs = [self.o(i) for i in idx]
+        if lst:
+            wire = [self._lst(idx)]
+            py = (lambda m: getattr(m, pyname)(objs)) if self.rng.random() < 0.5 else (lambda m: getattr(m, pyname)(*objs))
+        else:
+            wire = [self.r(i) for i in idx]
+            py = lambda m: getattr(m, pyname)(*objs)
+        return ["!", wname] + wire, py, (lambda B: _expect("E:type"))
+
+    def g_illsorted(self, e):
+        """an ill-sorted call that is ONE create_node: the node is inserted, the type checker
+        rejects it (PysmtTypeError), the node and its id stay; asking again fails again"""
+        k = self.rng.randrange(len(self.ILL))
+        idx = tuple(self.pick(e, t) for t in self.ILL[k][3])
+        if not all(self.usable(i) for i in idx):
+            return None
+        wire, pyc, bluec = self.c_ILL(e, k, idx)
+        i = self.emit(e, None, wire, pyc, bluec, recipe=("ILL", (k, idx)))
+        if self.rng.random() < 0.4:     # the "found" path re-checks and raises again
+            wire, pyc, bluec = self.c_ILL(e, k, idx)
+            self.emit(e, None, wire, pyc, bluec, recipe=("ILL", (k, idx)))
+        return i
+
     def g_normalize(self, e):
         """normalize into e an object of another environment (interleaving several sources on
         one target, whose normalizer keeps its memo) or, sometimes, one of e's own formulas"""
@@ -1846,11 +2079,29 @@ class History(object):
             srcs = [k for k in self.active if k != e]
             rng.shuffle(srcs)
             srcs = srcs[:1] + [e]
-        for k in srcs:
+        def some(k):
             c = [i for i, x in enumerate(self.res) if x.env == k and self.usable(i)]
-            if c:
-                i = rng.choice(c[-25:]) if rng.random() < 0.6 else rng.choice(c)
+            if not c:
+                return None
+            return rng.choice(c[-25:]) if rng.random() < 0.6 else rng.choice(c)
+        for k in srcs:
+            i = some(k)
+            if i is None:
+                continue
+            r = rng.random()
+            if r < 0.6:
                 return self.do_normalize(e, i)
+            if r < 0.8:     # through a one-formula shortcut
+                return self.do_route(e, rng.choice(ROUTES1), [i])
+            # several formulas, foreign ones (from any environment) and own ones mixed
+            n = 2 if r < 0.9 else rng.choice([2, 3, 4])
+            route = "binary_interpolant" if r < 0.9 else rng.choice(["get_unsat_core", "sequence_interpolant"])
+            idxs = [i]
+            while len(idxs) < n:
+                j = some(rng.choice(self.active))
+                idxs.append(i if j is None else j)
+            rng.shuffle(idxs)
+            return self.do_route(e, route, idxs)
         return None
 
     def run(self):
@@ -1871,6 +2122,9 @@ class History(object):
             if bursts and rng.random() < 0.04:
                 bursts -= 1
                 self.g_churn(e)
+                continue
+            if rng.random() < 0.012:
+                self.g_illsorted(e)
                 continue
             g = rng.choices(names, weights)[0]
             if g == "bool":
@@ -1988,7 +2242,7 @@ class History(object):
 
     def search(self):
         """S: the property itself, with the blueprint as oracle.  Returns [(sig, what)]."""
-        V = []
+        V = list(self.viol)
         memo = {}
         for idx, x in enumerate(self.res):
             if x.special == "type":
@@ -2219,10 +2473,16 @@ def probe_sort_named_array(ctx):
                      {"probe": "sort-named-Array"})
 
 
+def quiet():
+    import pysmt.shortcuts      # its import installs a 'default' filter for pysmt's warnings
+    warnings.simplefilter("ignore")
+    warnings.filterwarnings("ignore", module="pysmt")
+
+
 def run(ctx):
     from concurrent.futures import ThreadPoolExecutor
     _load_ops()
-    warnings.simplefilter("ignore")
+    quiet()
     sys.setrecursionlimit(20000)
     probe_sort_named_array(ctx)
     quick = ctx.tier == "quick"
@@ -2254,8 +2514,19 @@ def run(ctx):
 
     while index < target and time.time() - t0 < gen_budget:
         nops = pick_nops(ctx.rng, ctx.tier)
-        h = make_history(ctx.seed, index, nops, ctx.tier)
-        lines.append(h.request())
+        try:
+            h = make_history(ctx.seed, index, nops, ctx.tier)
+            line = h.request()
+        except Exception as ex:
+            # the library left the generator in a state it cannot continue from: a failing input
+            import traceback
+            ctx.report_s({"oracle": "history", "shape": "generator-crash", "exc": type(ex).__name__},
+                         "history %d cannot be generated: %r\n%s" % (index, ex, traceback.format_exc()[-1500:]),
+                         {"seed": ctx.seed, "index": index, "nops": nops, "tier": ctx.tier})
+            ctx.case(None)
+            index += 1
+            continue
+        lines.append(line)
         hs.append((index, nops, h))
         index += 1
         if len(hs) >= batch:        # the model answers one batch while the next is generated
@@ -2296,12 +2567,19 @@ def _flush(ctx, hs, lines, answers, seen_nt):
 
 def replay(ctx, rep):
     _load_ops()
-    warnings.simplefilter("ignore")
+    quiet()
     r = rep["replay"]
     if "probe" in r:
         probe_sort_named_array(ctx)
         return
-    h = make_history(r["seed"], r["index"], r["nops"], r.get("tier", "quick"))
+    try:
+        h = make_history(r["seed"], r["index"], r["nops"], r.get("tier", "quick"))
+        h.request()
+    except Exception as ex:
+        ctx.report_s({"oracle": "history", "shape": "generator-crash", "exc": type(ex).__name__},
+                     "history %d cannot be generated: %r" % (r["index"], ex), r)
+        ctx.case(None)
+        return
     try:
         ans = ctx.lean_run("C04", [h.request()])[0]
     except common.LeanError as e:
